@@ -108,8 +108,7 @@ def cstep (s : CSt) : List String → CSt × List String
 
 /-- `pump` never panics: every op may be wrapped in `unwinding` (`Driver/Unwind.lean`) -/
 def chunkerFamily : Family :=
-  withUnwind { σ := CSt, init := cinit, step := cstep }
-    (fun s ws => let out := (cstep s ws).2; !(out.contains "panic") && !(out.contains "bad-op"))
+  withUnwindOut { σ := CSt, init := cinit, step := cstep } (fun _ _ => true) panicOrBad
 
 /-! #### reader -/
 
